@@ -745,8 +745,10 @@ static int masi_load(struct module_data *m, HIO_HANDLE *f, const int start)
 	ret |= libxmp_iff_register(handle, "DSMP", get_dsmp_cnt);
 	ret |= libxmp_iff_register(handle, "PBOD", get_pbod_cnt);
 
-	if (ret != 0)
+	if (ret != 0) {
+		libxmp_iff_release(handle);
 		goto err;
+	}
 
 	libxmp_iff_set_quirk(handle, IFF_LITTLE_ENDIAN);
 
@@ -796,8 +798,10 @@ static int masi_load(struct module_data *m, HIO_HANDLE *f, const int start)
 	ret |= libxmp_iff_register(handle, "DSMP", get_dsmp);
 	ret |= libxmp_iff_register(handle, "PBOD", get_pbod);
 
-	if (ret != 0)
+	if (ret != 0) {
+		libxmp_iff_release(handle);
 		goto err3;
+	}
 
 	libxmp_iff_set_quirk(handle, IFF_LITTLE_ENDIAN);
 
